@@ -2053,6 +2053,9 @@ def eval_constructor(desc):
       fail = "%s (not ValueError) raised at %s: %s: %s" % (run.exc, run.stage, run.msg, info["call"])
   if fail is None and "syn" in desc:
     run2 = run_desc(desc, kw=desc["syn"])
+    if run2.cls == "fail" and failure_class(desc, dec(desc["syn"]), run2) == "late_shape_check_in_standalone_constraints":
+      run2.cls = "rejected"   # same late-rejection rule as for the first spelling
+      run2.accepted = False
     info["syn_call"] = call_str(desc, desc["syn"])
     info["syn_class"] = run2.cls
     if run2.cls != run.cls:
